@@ -30,8 +30,13 @@ CONSTANT Emit
 
 BinaryOps == {"OR", "AND", "=", "<>", "<", ">", "<=", ">=", "LIKE", "ILIKE", "||", "+", "-", "*", "/", "%", "->", "->>"}
 
-E(n, pre, post) == [name |-> n, level |-> "expression", pre |-> pre, post |-> post]
-Q(n, pre, post) == [name |-> n, level |-> "statement", pre |-> pre, post |-> post]
+\* bare: the context delimits its hole by itself (a call's parentheses, CASE ... END, brackets, the keywords of a window
+\* clause), so it also nests WITHOUT the parentheses around the hole - and only then does every level pass nothing but
+\* the productions of that operand position (a parenthesised hole always passes the parenthesis production, which has
+\* a guard of its own)
+E(n, pre, post) == [name |-> n, level |-> "expression", pre |-> pre, post |-> post, bare |-> FALSE]
+B(n, pre, post) == [name |-> n, level |-> "expression", pre |-> pre, post |-> post, bare |-> TRUE]
+Q(n, pre, post) == [name |-> n, level |-> "statement", pre |-> pre, post |-> post, bare |-> FALSE]
 
 BinaryContexts ==
     UNION {{E("left-of:" \o o, <<"(">>, <<")", o, "1">>), E("right-of:" \o o, <<"1", o, "(">>, <<")">>)} : o \in BinaryOps}
@@ -39,32 +44,35 @@ BinaryContexts ==
 OtherExpressionContexts == {
     E("not", <<"NOT", "(">>, <<")">>), E("minus", <<"-", "(">>, <<")">>),
     E("is-null", <<"(">>, <<")", "IS", "NULL">>), E("is-not-null", <<"(">>, <<")", "IS", "NOT", "NULL">>),
-    E("cast-colons", <<"(">>, <<")", "::", "INT">>), E("cast", <<"CAST", "(", "(">>, <<")", "AS", "INT", ")">>),
+    E("cast-colons", <<"(">>, <<")", "::", "INT">>), B("cast", <<"CAST", "(", "(">>, <<")", "AS", "INT", ")">>),
     E("between-subject", <<"(">>, <<")", "BETWEEN", "1", "AND", "2">>),
     E("between-lower", <<"a", "BETWEEN", "(">>, <<")", "AND", "2">>),
     E("between-upper", <<"a", "BETWEEN", "1", "AND", "(">>, <<")">>),
     E("in-subject", <<"(">>, <<")", "IN", "(", "1", ",", "2", ")">>),
-    E("in-first-element", <<"a", "IN", "(", "(">>, <<")", ",", "2", ")">>),
-    E("in-last-element", <<"a", "IN", "(", "1", ",", "(">>, <<")", ")">>),
-    E("not-in-element", <<"a", "NOT", "IN", "(", "(">>, <<")", ")">>),
-    E("case-operand", <<"CASE", "(">>, <<")", "WHEN", "1", "THEN", "2", "END">>),
-    E("case-when-value", <<"CASE", "a", "WHEN", "(">>, <<")", "THEN", "2", "END">>),
-    E("case-condition", <<"CASE", "WHEN", "(">>, <<")", "THEN", "1", "END">>),
-    E("case-second-condition", <<"CASE", "WHEN", "a", "THEN", "1", "WHEN", "(">>, <<")", "THEN", "2", "END">>),
-    E("case-result", <<"CASE", "WHEN", "a", "THEN", "(">>, <<")", "END">>),
-    E("case-else", <<"CASE", "WHEN", "a", "THEN", "1", "ELSE", "(">>, <<")", "END">>),
-    E("call-first-argument", <<"f", "(", "(">>, <<")", ",", "1", ")">>),
-    E("call-last-argument", <<"f", "(", "1", ",", "(">>, <<")", ")">>),
-    E("call-distinct", <<"COUNT", "(", "DISTINCT", "(">>, <<")", ")">>),
-    E("call-order-by", <<"f", "(", "a", "ORDER", "BY", "(">>, <<")", ")">>),
-    E("call-filter", <<"COUNT", "(", "a", ")", "FILTER", "(", "WHERE", "(">>, <<")", ")">>),
-    E("call-over-partition", <<"SUM", "(", "a", ")", "OVER", "(", "PARTITION", "BY", "(">>, <<")", ")">>),
-    E("call-over-order", <<"SUM", "(", "a", ")", "OVER", "(", "ORDER", "BY", "(">>, <<")", ")">>),
-    E("call-within-group", <<"f", "(", "a", ")", "WITHIN", "GROUP", "(", "ORDER", "BY", "(">>, <<")", ")">>),
-    E("array-first-element", <<"ARRAY", "[", "(">>, <<")", ",", "1", "]">>),
-    E("array-last-element", <<"ARRAY", "[", "1", ",", "(">>, <<")", "]">>),
-    E("subscript-array", <<"(">>, <<")", "[", "1", "]">>), E("subscript-index", <<"a", "[", "(">>, <<")", "]">>),
-    E("slice-end", <<"a", "[", "1", ":", "(">>, <<")", "]">>),
+    B("in-first-element", <<"a", "IN", "(", "(">>, <<")", ",", "2", ")">>),
+    B("in-last-element", <<"a", "IN", "(", "1", ",", "(">>, <<")", ")">>),
+    B("not-in-element", <<"a", "NOT", "IN", "(", "(">>, <<")", ")">>),
+    B("case-operand", <<"CASE", "(">>, <<")", "WHEN", "1", "THEN", "2", "END">>),
+    B("case-when-value", <<"CASE", "a", "WHEN", "(">>, <<")", "THEN", "2", "END">>),
+    B("case-condition", <<"CASE", "WHEN", "(">>, <<")", "THEN", "1", "END">>),
+    B("case-second-condition", <<"CASE", "WHEN", "a", "THEN", "1", "WHEN", "(">>, <<")", "THEN", "2", "END">>),
+    B("case-result", <<"CASE", "WHEN", "a", "THEN", "(">>, <<")", "END">>),
+    B("case-else", <<"CASE", "WHEN", "a", "THEN", "1", "ELSE", "(">>, <<")", "END">>),
+    B("call-first-argument", <<"f", "(", "(">>, <<")", ",", "1", ")">>),
+    B("call-last-argument", <<"f", "(", "1", ",", "(">>, <<")", ")">>),
+    B("call-distinct", <<"COUNT", "(", "DISTINCT", "(">>, <<")", ")">>),
+    B("call-order-by", <<"f", "(", "a", "ORDER", "BY", "(">>, <<")", ")">>),
+    B("call-filter", <<"COUNT", "(", "a", ")", "FILTER", "(", "WHERE", "(">>, <<")", ")">>),
+    B("call-over-partition", <<"SUM", "(", "a", ")", "OVER", "(", "PARTITION", "BY", "(">>, <<")", ")">>),
+    B("call-over-order", <<"SUM", "(", "a", ")", "OVER", "(", "ORDER", "BY", "(">>, <<")", ")">>),
+    B("call-within-group", <<"f", "(", "a", ")", "WITHIN", "GROUP", "(", "ORDER", "BY", "(">>, <<")", ")">>),
+    B("frame-offset", <<"SUM", "(", "a", ")", "OVER", "(", "ORDER", "BY", "a", "ROWS", "(">>, <<")", "PRECEDING", ")">>),
+    B("frame-between-start", <<"SUM", "(", "a", ")", "OVER", "(", "ORDER", "BY", "a", "ROWS", "BETWEEN", "(">>, <<")", "PRECEDING", "AND", "CURRENT", "ROW", ")">>),
+    B("frame-between-end", <<"SUM", "(", "a", ")", "OVER", "(", "ORDER", "BY", "a", "RANGE", "BETWEEN", "1", "PRECEDING", "AND", "(">>, <<")", "FOLLOWING", ")">>),
+    B("array-first-element", <<"ARRAY", "[", "(">>, <<")", ",", "1", "]">>),
+    B("array-last-element", <<"ARRAY", "[", "1", ",", "(">>, <<")", "]">>),
+    E("subscript-array", <<"(">>, <<")", "[", "1", "]">>), B("subscript-index", <<"a", "[", "(">>, <<")", "]">>),
+    B("slice-end", <<"a", "[", "1", ":", "(">>, <<")", "]">>),
     E("row-first", <<"(", "(">>, <<")", ",", "1", ")">>), E("row-last", <<"(", "1", ",", "(">>, <<")", ")">>) }
 
 S == <<"SELECT", "a", "FROM", "t">>
@@ -120,5 +128,19 @@ WellFormed ==
     \* the hole is enclosed by the context's own parentheses (an unparenthesised arm of a set operation would make
     \* a chain, which is a sequence and not nesting)
     /\ ctx.pre[Len(ctx.pre)] = "(" /\ ctx.post[1] = ")"
+\* the bare variant (hole parentheses removed) is balanced as well, and starts with a name or keyword and ends with a
+\* closing delimiter or END, so that it is a primary expression wherever it stands
+BareWellFormed ==
+    ctx.bare =>
+        LET pre == SubSeq(ctx.pre, 1, Len(ctx.pre) - 1)
+            post == SubSeq(ctx.post, 2, Len(ctx.post))
+            a == Depths(pre, 1, 0)
+            b == Depths(post, 1, Final(pre, 0)) IN
+        /\ pre # <<>> /\ post # <<>>
+        /\ pre[1] \notin Open \cup Close
+        /\ post[Len(post)] \in {")", "]", "END"}
+        /\ \A i \in DOMAIN a : a[i] >= 0
+        /\ \A i \in DOMAIN b : b[i] >= 0
+        /\ Final(post, Final(pre, 0)) = 0
 UniqueNames == \A c \in Contexts : c.name = ctx.name => c = ctx
 =============================================================================
